@@ -243,6 +243,16 @@ func (nl *NodeList) RemoveNodes(ids []string) {
 	}
 
 	nl.Nodes = newNodeList
+
+	// Drop the removed nodes from the root elements too
+	newRootElements := []string{}
+	for _, id := range nl.RootElements {
+		if _, ok := idDict[id]; !ok {
+			newRootElements = append(newRootElements, id)
+		}
+	}
+	nl.RootElements = newRootElements
+
 	nl.cleanEdges()
 }
 
